@@ -658,6 +658,14 @@ class X:
             return self.call_name(e, f.id, env)
         if isinstance(f, ast.Attribute):
             return self.call_method(e, f, env)
+        # getattr(x, "is_symbol", lambda: False)(): is the pysmt term a symbol?
+        if (isinstance(f, ast.Call) and isinstance(f.func, ast.Name) and f.func.id == "getattr" and len(f.args) == 3 and not f.keywords
+                and not e.args and not e.keywords and isinstance(f.args[1], ast.Constant) and f.args[1].value == "is_symbol"
+                and isinstance(f.args[2], ast.Lambda) and not f.args[2].args.args and isinstance(f.args[2].body, ast.Constant) and f.args[2].body.value is False):
+            c, t, b = self.tx(f.args[0], env)
+            if t != "iterm":
+                fail(e, "is_symbol of %r" % (t,))
+            return "(iterm_is_sym %s)" % c, "bool", b
         fail(e, "call of a computed function")
 
     def simple_args(self, e, env, n=None):
@@ -680,6 +688,8 @@ class X:
             return self.tx(e.args[1], env)
         if name == "len":
             cs, ts, b = self.simple_args(e, env, 1)
+            if isinstance(ts[0], tuple) and ts[0][0] == "tuple":
+                return "(%d)%%Z" % len(ts[0][1]), "int", b      # a fixed-shape record
             if ts[0] is None or ts[0] == "world" or (isinstance(ts[0], tuple) and ts[0][0] in ("list", "dict", "set")):
                 return "(py_len %s)" % cs[0], "int", b      # an unknown type is left to Coq's type checker
             fail(e, "len of %r" % (ts[0],))
@@ -2027,7 +2037,11 @@ TARGETS = [
            state=[("nf_cnf_dict", "es_nf_cnf_dict", ("dict", ("list", ("list", "int"))))], locals_={"violated": ("set", "int")}),
         Fn("remove_supersets", "py_remove_supersets", [("lst_of_sets", ("list", ("set", "int")))], locals_={"filtered": ("list", ("set", "int"))}),
     ]),
-    dict(out="SrcCrev", file="inference/c_revision.py", requires=["SrcCond", "SrcOcf"], funcs=[
+    dict(out="SrcCrev", file="inference/c_revision.py", requires=["SrcCond", "SrcOcf", "SrcC"], extra_imports=["PyInt"], funcs=[
+        Fn("symbolize_minima_expression", "py_symbolize_minima", [("minima", ("dict", ("list", TRIPLE))), ("gamma_plus_zero", "bool")]),
+        Fn("encoding", "py_crev_encoding", [("gammas", ("dict", ("tuple", ("iterm", "iterm")))), ("vSums", ("dict", ("list", "iterm"))), ("fSums", ("dict", ("list", "iterm")))]),
+        Fn("translate_to_csp", "py_translate_to_csp", [("compilation", ("tuple", (("dict", ("list", TRIPLE)), ("dict", ("list", TRIPLE))))), ("gamma_plus_zero", "bool"),
+                                                        ("fixed_gamma_plus", "none"), ("fixed_gamma_minus", "none")]),
         Fn("compile_alt", "py_compile_alt", [("ranking_function", "preocf"), ("revision_conditionals", ("list", "cond"))],
            locals_={"vMin": ("dict", ("list", TRIPLE)), "fMin": ("dict", ("list", TRIPLE)), "acc_list": ("list", "int"), "rej_list": ("list", "int")}),
     ]),
